@@ -30,9 +30,15 @@ pub struct Case {
     pub amounts: Vec<u32>,
     pub seps: u8,
     pub digits: u8,
-    /// "C15": print -> type back -> print; "C17": highlight tokens
+    /// "C15": print -> type back -> print; "C17": highlight tokens; "C08": conversion codes with fractional constants
     pub what: String,
+    /// "C08": register the family BEFORE the separators are set through the setters (else after)
+    #[serde(default)]
+    pub reg_first: bool,
 }
+
+/// link factors with a fraction, written in the fixed notation of conversion codes ('.' decimal, no grouping)
+pub const FACTORS: [(&str, f64); 4] = [("2.5", 2.5), ("16.5", 16.5), ("0.25", 0.25), ("1000.5", 1000.5)];
 
 fn registered(c: &Case) -> Vec<usize> {
     let mut v: Vec<usize> = vec![];
@@ -49,17 +55,27 @@ fn registered(c: &Case) -> Vec<usize> {
 }
 
 fn make_calc(cfg: &Cfg, units: &[usize]) -> Result<SmartCalc, String> {
-    let mut calc = build_calc(cfg);
+    make_calc_ordered(cfg, units, false, None)
+}
+
+/// `reg_first`: the family is registered on a default calculator and the configuration applied afterwards through the
+/// setters; `factor`: the code of every link (`{value} / f` up, `{value} * f` down) instead of the integer 10
+fn make_calc_ordered(cfg: &Cfg, units: &[usize], reg_first: bool, factor: Option<&str>) -> Result<SmartCalc, String> {
+    let mut calc = if reg_first { build_calc(&Cfg::default()) } else { build_calc(cfg) };
+    let f = factor.unwrap_or("10");
     if !calc.add_dynamic_type("olcu".to_string()) {
         return Err("add_dynamic_type returned false for a fresh name".into());
     }
     for (k, u) in units.iter().enumerate() {
         let (word, printed, first) = UNITS[*u];
         let (format, parse) = if first { (format!("{} {{value}}", printed), format!("{{TEXT:type:{}}} {{NUMBER:value}}", word)) } else { (format!("{{value}} {}", printed), format!("{{NUMBER:value}} {{TEXT:type:{}}}", word)) };
-        let ok = calc.add_dynamic_type_item("olcu".to_string(), k + 1, format, vec![parse], "{value} / 10".to_string(), "{value} * 10".to_string(), vec![word.to_string()], None, None, None);
+        let ok = calc.add_dynamic_type_item("olcu".to_string(), k + 1, format, vec![parse], format!("{{value}} / {}", f), format!("{{value}} * {}", f), vec![word.to_string()], None, None, None);
         if !ok {
             return Err(format!("add_dynamic_type_item returned false for a fresh index {}", k + 1));
         }
+    }
+    if reg_first {
+        crate::common::apply_cfg(&mut calc, cfg);
     }
     Ok(calc)
 }
@@ -85,6 +101,9 @@ impl Prop for CustomUnits {
             Ok(Err(e)) => return Verdict::fail(e, rendered),
             Err(p) => return Verdict::fail(format!("registration panicked at {}: {}", p.site, p.message), rendered),
         };
+        if c.what == "C08" {
+            return check_codes(w, c, &cfg, &units, rendered);
+        }
         let mut acc = Acc::new();
         let mut checked = 0;
         let mut non_ascii = false;
@@ -148,8 +167,56 @@ impl Prop for CustomUnits {
     }
 }
 
+/// C08: a conversion along a link whose code holds a fractional constant gives amount / factor (amount * factor downwards)
+/// under every separator convention and whichever came first, the registration or the separator setters
+fn check_codes(w: &mut Worker, c: &Case, cfg: &Cfg, units: &[usize], rendered: String) -> Verdict {
+    let (dec, thou) = READ_SEPS[c.seps as usize % 4];
+    let (ftext, f) = FACTORS[c.digits as usize % FACTORS.len()];
+    let rendered = format!("{} link factor {} registered {} the separators", rendered, ftext, if c.reg_first { "before" } else { "after" });
+    let calc = match crate::engine::guarded(|| make_calc_ordered(cfg, units, c.reg_first, Some(ftext))) {
+        Ok(Ok(c)) => c,
+        Ok(Err(e)) => return Verdict::fail(e, rendered),
+        Err(p) => return Verdict::fail(format!("registration panicked at {}: {}", p.site, p.message), rendered),
+    };
+    let mut acc = Acc::new();
+    let plain: Vec<usize> = units.iter().copied().filter(|u| !UNITS[*u].2).collect();
+    let mut checked = 0;
+    'outer: for a in &c.amounts {
+        let amount = *a as f64 / 1000.0;
+        let lit = crate::common::literal(amount, dec, thou, false);
+        for (i, ui) in units.iter().enumerate() {
+            for (j, uj) in units.iter().enumerate() {
+                if UNITS[*ui].2 || UNITS[*uj].2 || !plain.contains(ui) || i == j {
+                    continue;
+                }
+                let line = format!("{} {} to {}", lit, UNITS[*ui].0, UNITS[*uj].0);
+                let exp = if j > i { amount / f.powi((j - i) as i32) } else { amount * f.powi((i - j) as i32) };
+                w.count_eval(1);
+                match eval_on(&calc, "en", &line) {
+                    Ok(o) => match o.slots.first() {
+                        Some(Slot::Ok { v: V::Unit(x, g, idx), .. }) if g == "olcu" && *idx == j + 1 && crate::common::close(*x, exp) => checked += 1,
+                        other => {
+                            acc.fail(format!("{:?} should be {} of unit #{} (factor {} per link), got {:?}", line, exp, j + 1, ftext, other.map(|s| s.brief())));
+                            break 'outer;
+                        }
+                    },
+                    Err(p) => {
+                        acc.fail(format!("{:?}: panic at {}: {}", line, p.site, p.message));
+                        break 'outer;
+                    }
+                }
+            }
+        }
+    }
+    acc.finish(rendered).nt(checked > 0).class("user-family-with-fractional-link-factors").class_if(c.reg_first, "family-registered-before-the-separators-were-set")
+}
+
 pub fn case_strategy(what: &'static str) -> impl Strategy<Value = Case> {
-    (prop::collection::vec(0u8..8, 2..5), prop::collection::vec(prop_oneof![3 => 0u32..100_000, 1 => (0u32..5000).prop_map(|v| v * 1000), 1 => 0u32..=3_000_000], 3..10), 0u8..4, 0u8..5).prop_map(move |(units, amounts, seps, digits)| Case { units, amounts, seps, digits, what: what.to_string() })
+    (prop::collection::vec(0u8..8, 2..5), prop::collection::vec(prop_oneof![3 => 0u32..100_000, 1 => (0u32..5000).prop_map(|v| v * 1000), 1 => 0u32..=3_000_000], 3..10), 0u8..4, 0u8..5).prop_map(move |(units, amounts, seps, digits)| Case { units, amounts, seps, digits, what: what.to_string(), reg_first: (amounts_parity(seps, digits)) })
+}
+
+fn amounts_parity(seps: u8, digits: u8) -> bool {
+    (seps / 2 + digits) % 2 == 1
 }
 
 pub fn replay(w: &mut Worker, case: &serde_json::Value) -> Option<Verdict> {
